@@ -9,20 +9,31 @@
 (* optional sections are restored exactly when present (inside Restored),  *)
 (* a transaction record comes back as its normal form (TxNormalize), the   *)
 (* reader never gets stuck on a well-formed stream and consumes all of it. *)
+(* With MaxKeep > 0: several streams are encoded one after the other, each *)
+(* handed back and kept by the caller, and decoded only afterwards, in any *)
+(* order: a kept stream still is the concatenation of its own items        *)
+(* (KeptIntact) and reads back like a stream decoded at once; an encoder   *)
+(* that hands back views of one buffer it uses again (Encoder = "pooled")  *)
+(* is refuted.                                                             *)
 (*                                                                         *)
 (* Cands = "steps": three step kinds with variable lengths (a fixed-layout *)
 (*   step, the versioned HTTP-call step, the message step with optional    *)
 (*   attributes) plus the flag-selected SqlStep_3 body;                    *)
 (* Cands = "abstract3": one candidate pair per kind of the three (the      *)
 (*   smallest set in which a length disagreement can hide);                *)
+(* Cands = "lengths3": three steps of three different lengths (used with    *)
+(*   MaxKeep > 0);                                                         *)
 (* Cands = "records": every combination of the optional groups of a        *)
 (*   transaction record, and the service records.                          *)
 (***************************************************************************)
 EXTENDS Profile, TLC
 
 CONSTANTS MaxLen, Cands,
-          Reader      \* "ref": the reference reader; "always_attr": the reader golib had, which always expects an
+          Reader,     \* "ref": the reference reader; "always_attr": the reader golib had, which always expects an
                       \* attribute map at the end of a message step (a named deviation, refuted by NoStuck)
+          MaxKeep,    \* how many encoded streams the caller may put aside before it reads them (0: one stream at a time)
+          Encoder     \* "fresh": every encoded stream is handed back in memory of its own; "pooled": the encoder hands
+                      \* back a view of ONE buffer it uses again for the next stream (a named deviation, refuted by KeptIntact)
 
 N(n) == LN(n)
 T(bs) == LS(bs)
@@ -74,6 +85,11 @@ Abstract3 ==
      Cand("step", "HttpcStepX", Httpc(1, FALSE)), Cand("step", "HttpcStepX", Httpc(2, TRUE)),
      Cand("step", "MessageStepX", MsgX(<<>>, LM(FALSE, <<>>))), Cand("step", "MessageStepX", MsgX(<<116>>, LM(TRUE, OnePair))) >>
 
+\* three steps of three different lengths (enough for one encoded stream to be laid over another)
+Lengths3 ==
+  << Cand("step", "DBCStep", Dbc(N(300))), Cand("step", "HttpcStepX", Httpc(2, TRUE)),
+     Cand("step", "MessageStepX", MsgX(<<116>>, LM(TRUE, OnePair))) >>
+
 Errs == << <<N(0), N(0)>>, <<N(1), N(0)>>, <<Neg1, N(0)>>, <<N(1), N(30)>>, <<N(0), N(10)>> >>
 FieldForms == << LM(FALSE, <<>>), LM(TRUE, <<>>), LM(TRUE, OnePair) >>
 TxCands ==
@@ -90,6 +106,7 @@ SvcCands == << Cand("service", "AppService", SvcZero), Cand("service", "WasServi
 
 CandSeq == IF Cands = "steps" THEN StepCands
            ELSE IF Cands = "abstract3" THEN Abstract3
+           ELSE IF Cands = "lengths3" THEN Lengths3
            ELSE TxCands \o SvcCands
 
 ASSUME RegistryFunctional
@@ -105,8 +122,32 @@ MCRead == /\ Len(rd) < Len(items)
                /\ ReaderOk(d)
                /\ Read(d.kind, d.r, d.next - 1)
 
-MCNext == \/ \E i \in DOMAIN CandSeq : Len(items) < MaxLen /\ MCWrite(CandSeq[i])
-          \/ MCRead
+\* ---- outputs handed back and kept (MaxKeep > 0) ------------------------------
+\* first MaxKeep streams are written and handed back one after the other (the caller keeps them all), then the kept
+\* streams are taken up again in any order, any number of times, and read.
+Writing == MaxKeep = 0 \/ Len(shelf) < MaxKeep
+\* ToBytesStep returned: the stream is handed back.  The pooled encoder has written it into the one buffer all the views
+\* it handed back before look into (a view keeps its length).
+Overlay(old, new) == [i \in 1..Len(old) |-> IF i <= Len(new) THEN new[i] ELSE old[i]]
+MCKeep ==
+  /\ MaxKeep > 0 /\ Writing
+  /\ IF Encoder = "fresh" THEN Keep
+     ELSE /\ items # <<>> /\ rd = <<>>
+          /\ shelf' = Append([h \in DOMAIN shelf |-> [shelf[h] EXCEPT !.stream = Overlay(@, stream)]],
+                             [stream |-> stream, items |-> items])
+          /\ stream' = <<>> /\ items' = <<>> /\ cursor' = 0
+          /\ UNCHANGED <<rd, objs>>
+\* the caller takes a kept stream up again, whatever it holds by now, and has it decoded
+MCPeek == /\ MaxKeep > 0 /\ ~Writing
+          /\ \E h \in DOMAIN shelf : Peek(h, shelf[h].stream)
+
+MCNext == \/ \E i \in DOMAIN CandSeq : Writing /\ Len(items) < MaxLen /\ MCWrite(CandSeq[i])
+          \/ (MaxKeep = 0 \/ ~Writing) /\ MCRead
+          \/ MCKeep
+          \/ MCPeek
+
+\* objs only grows: bound the number of reads (every order of taking up the kept streams is still explored)
+Bounded == Len(objs) <= (IF MaxKeep = 0 THEN 1 ELSE MaxKeep) * MaxLen
 
 MCSpec == Init /\ [][MCNext]_vars
 
@@ -117,6 +158,10 @@ ExactNormalForm == \A i \in 1..Len(rd) :
    LET n == Normalize(items[i].kind, items[i].w) IN
    /\ DOMAIN rd[i].r \subseteq DOMAIN items[i].w
    /\ \A f \in DOMAIN items[i].w : IF f \in DOMAIN rd[i].r THEN SameLeaf(rd[i].r[f], n[f]) ELSE IsDefault(n[f])
+\* what was handed back stays the concatenation of its own items while other streams are encoded
+KeptIntact == \A h \in DOMAIN shelf :
+   shelf[h].stream = Concat([i \in DOMAIN shelf[h].items |->
+                               EncItemBytes(shelf[h].items[i].fam, shelf[h].items[i].kind, shelf[h].items[i].w)])
 \* a step decodes the same whatever follows it
 SelfDelimiting == \A i \in 1..Len(items) :
    LET it == items[i]
